@@ -69,8 +69,16 @@ fn ipv6_case(proto: Option<u8>, m: usize, n: usize, lists: bool) {
     let p = match r {
         Some(p) => p,
         None => {
-            assert!(rec.calls == 0 || !rec.some, "C03: layer-4 reply dropped by the IPv6 layer");
-            kani::cover!(rec.calls == 1, "layer 4 silent");
+            // silence is legitimate iff layer 4 was silent, the transport header did not parse, or
+            // (C02) the address the answer would come from is outside the self-IP list - which for
+            // ICMPv6 is only known once layer 4 has named the solicited target
+            let would_src = match rec.nd_target {
+                Some(t) if buf[6] == 58 => t,
+                _ => dst,
+            };
+            let foreign = s_on && would_src != a6;
+            assert!(rec.calls == 0 || !rec.some || foreign, "C03: layer-4 reply dropped by the IPv6 layer");
+            kani::cover!(rec.calls == 1 && !rec.some, "layer 4 silent");
             kani::cover!(rec.calls == 0, "transport header too short");
             return;
         }
